@@ -618,7 +618,10 @@ func SortedKeys[V any](m map[string]V) []string {
 
 // IsTemp says whether a relative path names a storageos atomic-put temp file.
 func IsTemp(rel string) bool {
-	return strings.HasPrefix(filepath.Base(rel), ".tmp")
+	// os.CreateTemp(dir, ".tmp<base>*") replaces the star by a decimal number: an object that merely
+	// starts with ".tmp" (".tmpl", ".tmp.proto") is not a temporary file
+	base := filepath.Base(rel)
+	return strings.HasPrefix(base, ".tmp") && len(base) > 4 && base[len(base)-1] >= '0' && base[len(base)-1] <= '9'
 }
 
 // StateHash hashes a directory state; temp files of atomic puts carry a random
